@@ -4,11 +4,11 @@ package simwork
 
 import (
 	"encoding/json"
-	"time"
 	"fmt"
 	"path/filepath"
 	"strings"
 	"sync"
+	"time"
 )
 
 // Record is the part of a status record the monitors look at.
